@@ -29,7 +29,7 @@ pub struct Scn {
     /// 4 hotspot QPS reject 5 hotspot QPS throttling 6 hotspot concurrency 7..9 breaker strategy 0..2
     pub variant: u8,
     pub rule: AnySpec,
-    /// optional second rule on the target (flow reject and breaker variants, whose decisions and states
+    /// optional second rule on the target (flow reject, hotspot concurrency and breaker variants, whose decisions and states
     /// do not depend on the order in which the rules are consulted)
     #[serde(default)]
     pub rule2: Option<AnySpec>,
@@ -179,10 +179,14 @@ impl Prop for C11 {
         let reload_at = rng.range(1, nops as u64 - 1) as usize;
         let new_threshold = if rng.chance(1, 4) && matches!(variant, 0 | 6) { Some(rng.range(1, 8)) } else { None };
         let mut rule2 = None;
-        if new_threshold.is_none() && matches!(variant, 0 | 1 | 7 | 8 | 9) && rng.chance(1, 2) {
+        if new_threshold.is_none() && matches!(variant, 0 | 1 | 6 | 7 | 8 | 9) && rng.chance(1, 2) {
             // same variant (for breakers: same strategy and often the same window, so that the statistics are "reusable" between the two)
             let mut r2 = gen_target(rng, variant, &target);
             r2.set_id(format!("t2_{:x}", rng.below(0xffff)));
+            if let AnySpec::Hot(h) = &mut r2 {
+                // a second concurrency rule on the other positional parameter: the two may share statistics but count different values
+                h.index = *rng.pick(&[1i64, -1]);
+            }
             if let (AnySpec::Breaker(a), AnySpec::Breaker(b)) = (&rule, &mut r2) {
                 if rng.chance(2, 3) {
                     b.interval_ms = a.interval_ms;
@@ -375,7 +379,9 @@ fn run(sc: &Scn, w: &mut World, with_reload: bool, _shift: u64, cov: &mut Cov, c
             Op::Enter { n, arg } => {
                 let argv = ["x", "y"][*arg as usize % 2].to_string();
                 let t = w.now_ms();
-                let o = w.enter(&sc.target, *n, false, Some(vec![argv.clone()]), None);
+                // second positional argument: the other value (a second hotspot rule may look at it)
+                let other = ["y", "x"][*arg as usize % 2].to_string();
+                let o = w.enter(&sc.target, *n, false, Some(vec![argv.clone(), other]), None);
                 let code = (o.admitted as u64) << 62 | o.block.as_ref().map(|b| block_code(&b.block_type)).unwrap_or(0) << 56 | ((o.t1_ns - o.t0_ns) & 0xff_ffff_ffff_ffff);
                 seq.push((i, code));
                 if reloaded {
